@@ -108,8 +108,14 @@ pub fn serialize(cell: &A5Cell) -> Result<u64, String> {
         resolution,
     } = cell;
 
-    if *resolution > MAX_RESOLUTION {
+    // Valid resolutions are -1 (world cell) to MAX_RESOLUTION - 1; the marker bit of
+    // anything else does not fit into the 64-bit layout
+    if *resolution >= MAX_RESOLUTION {
         return Err(format!("Resolution ({}) is too large", resolution));
+    }
+
+    if *resolution < -1 {
+        return Err(format!("Resolution ({}) is too small", resolution));
     }
 
     if *resolution == -1 {
